@@ -25,13 +25,13 @@ static space SP[6];
 static void sp_run(int k, uint64_t idx) { space_pt p = space_decode(&SP[k], idx); size_t n = space_doc(&SP[k], &p, docbuf, sizeof docbuf); conv(docbuf, n, p.fmt, p.ext, p.lang); }
 #define SPFN(k) static void run##k(uint64_t i) { sp_run(k, i); } static void desc##k(uint64_t i, FILE *o) { space_desc(&SP[k], i, o); }
 SPFN(0) SPFN(1) SPFN(2) SPFN(3) SPFN(4) SPFN(5)
-static const int C14[20] = { 0, 1, 2, 3, 4, 5, 6, 7, 8, 9, 10, 11, 12, 13, 14, 15, 16, 17, 18, 19 };
+static const int C14[23] = { 0, 1, 2, 3, 4, 5, 6, 7, 8, 9, 10, 11, 12, 13, 14, 15, 16, 17, 18, 19, 20, 21, 22 };
 static const int C1[1] = { 0 };
 int main(int argc, char **argv) {
 	A = k_alpha_load("utf8"); P = k_alpha_load("ctx16_pre"); Q = k_alpha_load("ctx16_post");
-	SP[0] = (space){ .a = A, .minlen = 1, .maxlen = 2, .pre = P, .post = Q, .ctxs = C14, .nctx = 20, .fmts = FM, .nfmt = 7, .exts = SM, .next = 4, .nlang = 7 };
+	SP[0] = (space){ .a = A, .minlen = 1, .maxlen = 2, .pre = P, .post = Q, .ctxs = C14, .nctx = 23, .fmts = FM, .nfmt = 7, .exts = SM, .next = 4, .nlang = 7 };
 	SP[1] = (space){ .a = A, .minlen = 3, .maxlen = 3, .pre = P, .post = Q, .ctxs = C1, .nctx = 1, .fmts = FM, .nfmt = 7, .exts = SM, .next = 2 };
-	SP[2] = (space){ .a = A, .minlen = 3, .maxlen = 3, .pre = P, .post = Q, .ctxs = C14, .nctx = 20, .fmts = FM, .nfmt = 7, .exts = SM, .next = 4 };
+	SP[2] = (space){ .a = A, .minlen = 3, .maxlen = 3, .pre = P, .post = Q, .ctxs = C14, .nctx = 23, .fmts = FM, .nfmt = 7, .exts = SM, .next = 4 };
 	SP[3] = (space){ .a = A, .minlen = 4, .maxlen = 4, .pre = P, .post = Q, .ctxs = C1, .nctx = 1, .fmts = FM, .nfmt = 6, .exts = SM, .next = 2 };
 	/* sources that come in through the OPML reader: pure-ASCII character references and literal multi-byte characters in every attribute the reader decodes */
 	static const unsigned long XM[2] = { EXT_DEFAULT | EXT_PARSE_OPML, EXT_COMPAT_SET | EXT_PARSE_OPML }; static const int C5[5] = { 0, 1, 2, 3, 4 };
@@ -41,9 +41,9 @@ int main(int argc, char **argv) {
 	k_level L[] = {
 		{ "q_opml_import_len2", space_count(&SP[4]), run4, desc4, "qt", "character references and multi-byte characters len<=2 in 5 positions of an OPML SOURCE (outline title, note, nested title, head title, metadata value) x 7 formats x {MMD,compat}" },
 		{ "t_opml_import_len3", space_count(&SP[5]), run5, desc5, "t", "the same, len 3, MMD" },
-		{ "q_len2_positions", space_count(&SP[0]), run0, desc0, "qt", "UTF-8/syntax sequences len<=2 in 20 positions x 7 textual formats x 4 option sets x 7 languages" },
+		{ "q_len2_positions", space_count(&SP[0]), run0, desc0, "qt", "UTF-8/syntax sequences len<=2 in 23 positions x 7 textual formats x 4 option sets x 7 languages" },
 		{ "q_len3_body", space_count(&SP[1]), run1, desc1, "qt", "sequences len 3 in body text x 7 formats x smart on/off" },
-		{ "t_len3_positions", space_count(&SP[2]), run2, desc2, "t", "sequences len 3 in 20 positions x 7 formats x 4 option sets" },
+		{ "t_len3_positions", space_count(&SP[2]), run2, desc2, "t", "sequences len 3 in 23 positions x 7 formats x 4 option sets" },
 		{ "t_len4_body", space_count(&SP[3]), run3, desc3, "t", "sequences len 4 in body text x 6 formats x smart on/off" },
 	};
 	return k_main(argc, argv, L, sizeof L / sizeof L[0]);
